@@ -834,6 +834,11 @@ class Interp:
             e = Exit(); e.paths = paths; e.kind = 'throw'; e.ret = None; e.mem = state; e.exc = tname.replace('g:', ''); e.line = ins.get('line')
             S.exits.append(e)
             return 'noreturn-throw'
+        if 'throw_error_already_set' in name:
+            # Boost.Python's way of raising the pending Python error: a C++ throw (not marked noreturn in its declaration)
+            e = Exit(); e.paths = paths; e.kind = 'throw'; e.ret = None; e.mem = state; e.exc = 'boost::python::error_already_set'; e.line = ins.get('line')
+            S.exits.append(e)
+            return 'noreturn-throw'
         if ins.get('noreturn'):
             return 'noreturn'
         # opaque call: pointer arguments' pointees are inputs and (unless const-qualified, which
